@@ -79,6 +79,7 @@ type c05Scenario struct {
 	MaxPerms int        `json:"max_perms"`
 	ExtraSeed uint64    `json:"extra_seed"`
 	altRequiredDefault bool // see runC05: the alternative reading used only to classify a difference
+	ys                 map[string]*Y // file#service -> the node emitted for it by the last layout() call
 }
 
 // attributes that do not refer to other services or resources and are valid on any service
@@ -229,6 +230,18 @@ func genC05(r *zsimrt.Run) *c05Scenario {
 		}
 		mains = append(mains, s)
 	}
+	mainChain := len(mains) >= 2 && r.Chance("main-chain", 1, 4)
+	if mainChain {
+		// one chain inside the main file: svc_b extends svc_a, svc_c extends svc_b, ... (the shape the comparison
+		// with the links written as separate compose files applies to)
+		for i := range mains {
+			mains[i].ExtSvc, mains[i].ExtFile, mains[i].ExtForm = "", "", ""
+			if i > 0 {
+				mains[i].ExtSvc = mains[i-1].Name
+				mains[i].ExtForm = []string{"short", "long"}[r.Draw("main-chain-form", 2)]
+			}
+		}
+	}
 	// declaration order of the main services in the document is itself drawn
 	for i := 0; i < len(mains)-1; i++ {
 		j := i + r.Draw("decl-order", len(mains)-i)
@@ -282,7 +295,7 @@ func genC05(r *zsimrt.Run) *c05Scenario {
 			}
 		}
 	}
-	if r.Chance("extra-focus", 1, 3) {
+	if mainChain || r.Chance("extra-focus", 1, 3) {
 		// one attribute outside the vocabulary on every service of the scenario: its merge meets itself along every chain
 		a := c05Extras[r.Draw("extra-focus-attr", len(c05Extras))]
 		for i := range sc.Svcs {
@@ -513,6 +526,10 @@ func (sc *c05Scenario) layout(perm func(int) []int) *Layout {
 				}
 			}
 		}
+		if sc.ys == nil {
+			sc.ys = map[string]*Y{}
+		}
+		sc.ys[s.File+"#"+s.Name] = y
 		if s.Null {
 			d.Get("services").Set(s.Name, Null())
 			continue
@@ -744,7 +761,61 @@ func c05Diff(want, got *c05Val) string {
 	return ""
 }
 
+// mainFileChain: name and its bases, nearest first, when every link is declared in the main file and none uses a
+// tag or is written as null; nil otherwise.
+func (sc *c05Scenario) mainFileChain(name string) []string {
+	var chain []string
+	cur := name
+	for depth := 0; depth < 10; depth++ {
+		s := sc.find(sc.Main, cur)
+		if s == nil || s.Null || len(s.Attrs.Reset) > 0 || s.Attrs.OverrideCap || s.Attrs.OverrideLabels || s.Attrs.BuildTargetOnly {
+			return nil
+		}
+		if y := sc.ys[sc.Main+"#"+cur]; y == nil || hasTag(y) {
+			return nil
+		}
+		chain = append(chain, cur)
+		if s.ExtSvc == "" {
+			return chain
+		}
+		if s.ExtFile != "" && s.ExtFile != sc.Main {
+			return nil
+		}
+		cur = s.ExtSvc
+	}
+	return nil
+}
+
+func hasTag(y *Y) bool {
+	if y == nil {
+		return false
+	}
+	if y.Tag != "" {
+		return true
+	}
+	for _, v := range y.Vals {
+		if hasTag(v) {
+			return true
+		}
+	}
+	return false
+}
+
+func copyY(y *Y) *Y {
+	if y == nil {
+		return nil
+	}
+	c := *y
+	c.Keys = append([]string(nil), y.Keys...)
+	c.Vals = nil
+	for _, v := range y.Vals {
+		c.Vals = append(c.Vals, copyY(v))
+	}
+	return &c
+}
+
 type c05Result struct {
+	DiffLoads int
 	Problems []c14Problem
 	Loads    int
 	Perms    int
@@ -934,6 +1005,50 @@ func runC05(sc *c05Scenario) *c05Result {
 		if svc.Extends != nil {
 			problem("extends-attribute-kept", name)
 		}
+		// second oracle, for every attribute (the vocabulary and the extras alike): "applied on top by the override
+		// rules" - the rules by which several compose files giving the same values for one service are merged. For
+		// a chain that stays inside the main file (same directory: no path anchoring in play, and no tags) the
+		// resolved service must be what the links, written as one file each and loaded base first, merge to.
+		if chain := sc.mainFileChain(name); len(chain) >= 2 && len(out.Problems) == 0 {
+			DL := &Layout{Files: map[string]string{}, Env: L.Env, Home: L.Home, WorkingDir: L.WorkingDir, Cwd: L.Cwd, Entry: "loader", Opts: L.Opts}
+			for i := len(chain) - 1; i >= 0; i-- {
+				y := copyY(sc.ys[sc.Main+"#"+chain[i]])
+				y.Del("extends")
+				doc := Map().Set("services", Map().Set(name, y))
+				if len(DL.Main) == 0 {
+					for _, t := range []string{"dep_x", "dep_y", "dep_z"} {
+						doc.Get("services").Set(t, Map().Set("image", Str("leaf")))
+					}
+				}
+				f := fmt.Sprintf("/proj/difflink_%d.yaml", len(chain)-1-i)
+				DL.Files[f] = Emit(doc, nil)
+				DL.Main = append(DL.Main, f)
+			}
+			for f, txt := range L.Files {
+				if !strings.HasSuffix(f, ".yaml") {
+					DL.Files[f] = txt
+				}
+			}
+			er.ResetPolicies()
+			er.SetPolicy(zsimrt.OrdSorted)
+			do := RunLoad(DL, Materialise(DL), "", false)
+			out.DiffLoads++
+			switch {
+			case !do.OK:
+				problem("extends-differs-from-override-files:refused", fmt.Sprintf("service %s: chain %v loads through extends, the same links as %d compose files are refused: %s", name, chain, len(chain), truncate(do.Err, 160)))
+			default:
+				a, b := svc, do.Project.Services[name]
+				a.Extends, b.Extends = nil, nil
+				if !reflect.DeepEqual(a, b) {
+					d := bracketRe.ReplaceAllString(FirstDiff(b, a), "[*]")
+					field := strings.SplitN(strings.TrimPrefix(d, "."), " ", 2)[0]
+					if i := strings.IndexAny(field, ".["); i > 0 {
+						field = field[:i]
+					}
+					problem("extends-differs-from-override-files:"+field, fmt.Sprintf("service %s, chain %v: through extends vs as %d compose files (base first): %s", name, chain, len(chain), d))
+				}
+			}
+		}
 		want := sc.resolve(sc.Main, name, 0)
 		if d := c05Diff(want, projectOn(svc)); d != "" {
 			field := strings.SplitN(d, ":", 2)[0]
@@ -967,6 +1082,7 @@ func c05Exec(c *Ctx, sc *c05Scenario, minimise bool) {
 	c.Trace(fmt.Sprintf("%s:%s:%d:%d:%d", out.Digest, out.Outcome, out.Loads, out.PinHits, len(out.Problems)))
 	c.Count("scenarios", 1)
 	c.Count("loads", out.Loads)
+	c.Count("extends-vs-override-files-comparisons", out.DiffLoads)
 	c.Count("kind-"+sc.Kind, 1)
 	c.Count("outcome-"+out.Outcome, 1)
 	c.Count("pinned-visit-orders-applied", out.PinHits)
